@@ -123,6 +123,8 @@ def analyse(R, runner, trace, tag):
                     "not_fixed_after_bound": "after 2*16+maxdist+1 fair rounds the real routers' stored costs are still not a fixed point (the proved bound for the whole state is exceeded)",
                     "fixed_not_converged": "the real routers' state is a fixed point but not the shortest-path state",
                     "late_update_changed_state": "a ribUpdate that ran after the dead sweep had removed its neighbour (on the neighbour object it was started with) changed the real router's RIB: the lost neighbour's destinations are re-installed through a hop that is no longer a neighbour",
+                    "stale_data_changed_state": "advertisement Data whose sequence number is not the latest one announced by that neighbour (delayed / reordered Data, or Data of a neighbour that is gone) changed the real router's RIB: an out-of-date advertisement is processed and what it lists is (re-)installed",
+                    "live_neighbour_declared_dead": "the real dead sweep removed a neighbour from which a Sync Interest had been received within RouterDeadInterval (a heartbeat with an unchanged sequence number did not refresh its liveness)",
                     "no_quiescence": "the notification-driven schedule of the real routers did not come to rest",
                     "harness": "the harness saw an ill-formed table/advertisement"}.get(which, which)
             rep = dict(case=p[2], detail=detail[:3000], ops=ops[-6000:], trace_line=ln)
